@@ -293,6 +293,50 @@ def _order(r, p):
             r.fail("C08.order", kk, "%s consults `%s`: the normaliser no longer decides by token class alone, so for some inputs the model after phase 1 differs from what a parse of the written text builds (the reader has no such information)" % (name, bad[0]), nf.loc())
         else:
             r.ok("C08.order", kk, "decides by token class and neighbour class only")
+    # canonical whitespace: the reader never produces two adjacent whitespace tokens, and rules measure the space between
+    # two code tokens as the length of the one whitespace token between them.  A fix that filters non-whitespace elements
+    # (comments, carriage returns) out of a list must therefore collapse consecutive whitespace *after* the last such
+    # filter - collapsing first and filtering afterwards leaves `ws, ws` where the removed element stood.
+    from .c02 import Shapes as _Shapes
+
+    sh = _Shapes(p)
+    interior = set()
+    for kind in ("comment", "cr"):
+        for name, (dfi, dnode, dtest) in sh.droppers[kind].items():
+            if isinstance(dnode, ast.Continue) and any(isinstance(x, ast.Call) and isinstance(x.func, ast.Attribute) and x.func.attr == "append" for x in walk_function(dfi.node)):
+                interior.add(name)
+    canon = "remove_consecutive_whitespace_tokens"
+    if canon not in {fi.name for fi in p.functions.values() if fi.module.name == "vsg.vhdlFile.utils"}:
+        raise AnalysisError("whitespace canonicaliser %s vanished" % canon)
+    if len(interior) < 2:
+        raise AnalysisError("interior droppers not recognised: %s" % sorted(interior))
+    n_can = 0
+    for fi in sorted(p.functions.values(), key=lambda f: f.key):
+        if not fi.module.name.startswith("vsg.rules"):
+            continue
+        calls = []
+        for n in walk_function(fi.node):
+            if isinstance(n, ast.Assign) and len(n.targets) == 1 and isinstance(n.targets[0], ast.Name) and isinstance(n.value, ast.Call):
+                cn = norm(n.value.func).split(".")[-1]
+                if (cn == canon or cn in interior) and n.value.args and isinstance(n.value.args[0], ast.Name):
+                    calls.append((n.lineno, cn, n.targets[0].id, n.value.args[0].id, n))
+        calls.sort()
+        for i, (ln, cn, tgt, arg, node) in enumerate(calls):
+            if cn != canon:
+                continue
+            n_can += 1
+            cur = tgt
+            for ln2, cn2, tgt2, arg2, node2 in calls[i + 1 :]:
+                if arg2 != cur:
+                    continue
+                if cn2 == canon:
+                    break
+                kk = "%s:%s-after-%s" % (fi.key, cn2, canon)
+                r.fail("C08.order", kk, "%s applies %s to the list after consecutive whitespace was collapsed: where the removed element stood between two whitespace tokens the model keeps `whitespace, whitespace`, which a parse of the written text reads as one token - rules that measure the gap then see a different length than a fresh run" % (fi.key, cn2), fi.loc(node2))
+                cur = tgt2
+    if n_can < 6:
+        raise AnalysisError("only %d uses of the whitespace canonicaliser found in rules" % n_can)
+    r.ok("C08.order", "whitespace-canonical", "%d uses of %s: none is followed by a filter that removes interior non-whitespace elements (%s)" % (n_can, canon, ", ".join(sorted(interior))))
     # after --fix the report comes from a fresh check of the same model
     ar = p.function("vsg.apply_rules:apply_rules")
     af = Facts(ar.node)
@@ -368,6 +412,8 @@ VARIANTS = [
             [("vsg/apply_rules.py", '            oFile.write("\\n".join(oVhdlFile.get_lines()[1:]))\n            oFile.write("\\n")\n', '            oFile.write("\\n".join(oVhdlFile.get_lines()[1:]))\n')], rule="C08.emit"),
     Variant("C08", "blank-line normaliser respects a code tag the trailing-whitespace normaliser ignores", "fire",
             [("vsg/vhdlFile/utils.py", "                and isinstance(oToken, parser.whitespace)\n                and isinstance(lTokens[iToken + 1], parser.carriage_return)\n            ):", "                and isinstance(oToken, parser.whitespace)\n                and not oToken.has_code_tag(\"whitespace_001\")\n                and isinstance(lTokens[iToken + 1], parser.carriage_return)\n            ):")], rule="C08.order", key="class-only"),
+    Variant("C08", "aggregate collapse removes comments after collapsing whitespace", "fire",
+            [("vsg/rules/multiline_structure.py", "        lNewTokens = utils.remove_comments_from_token_list(lNewTokens)\n        lNewTokens = utils.remove_consecutive_whitespace_tokens(lNewTokens)\n", "        lNewTokens = utils.remove_consecutive_whitespace_tokens(lNewTokens)\n        lNewTokens = utils.remove_comments_from_token_list(lNewTokens)\n")], rule="C08.order", key="remove_comments_from_token_list-after"),
     Variant("C08", "twin: write-back builds the text in a local first", "silent",
             [("vsg/apply_rules.py", '            oFile.write("\\n".join(oVhdlFile.get_lines()[1:]))\n            oFile.write("\\n")\n', '            lLines = oVhdlFile.get_lines()[1:]\n            sText = "\\n".join(lLines) + "\\n"\n            oFile.write(sText)\n')]),
     Variant("C08", "twin: refresh indents unconditionally each phase", "silent",
